@@ -103,6 +103,14 @@ Fixpoint split_on (sep : chr) (s : str) (cur : str) : list str :=
   end.
 Definition fields (s : str) : list str := split_on c_tab s [].
 
+(* the same splitters with linear-time reversal (List.rev is quadratic once extracted): for long request lines *)
+Fixpoint split_on_fast (sep : chr) (s : str) (cur : str) : list str :=
+  match s with
+  | [] => [rev_append cur []]
+  | c :: r => if c =? sep then rev_append cur [] :: split_on_fast sep r [] else split_on_fast sep r (c :: cur)
+  end.
+Definition fields_fast (s : str) : list str := split_on_fast c_tab s [].
+
 Fixpoint join (sep : str) (l : list str) : str :=
   match l with [] => [] | [x] => x | x :: r => x ++ sep ++ join sep r end.
 
